@@ -34,6 +34,7 @@ package markup
 //@   modifies lineParser.reader, lineParser.position, lineParser.sourcePosition
 //@   ensures "result-or-error": (err == nil) == (res != nil) && (err == nil ==> fresh(res))
 //@   ensures "ranges-inside-text": err == nil ==> rangesInside(res)
+//@   assert "marker-position-is-the-number-of-characters-written": at call parseAttributeMarker#0: lineParser.position == runeLen((&builder).content)
 //@   loop 0: invariant fresh(lineParser.reader) && lineParser.ok() && inited(lineParser.reader) && inited(lineParser.position) && inited(lineParser.sourcePosition) && fresh(markers)
 //@   loop 0: decreases lineParser.rem()
 //@   loop 2: invariant (arrayOf(attributes) == 0 || fresh(attributes)) && 0 <= rangeindex + 1 && 0 <= textLength && textLength == runeLen(trimmedText) &&
